@@ -7,10 +7,14 @@ Tables (`FfcxModel/IR/Tables.lean`, proofs in `Lemmas/Tables.lean`):
   `access_compress_needs_all_perms` (the hypothesis `ClassifiedOnAllPerms` cannot be dropped).
 
 Factorisation (`FfcxModel/IR/{Graph,Factorize}.lean`, proofs in `Lemmas/Factorize*.lean`):
-  `factorize_sound`            FULL: every accepted well-formed graph, every handler
-                               (sum, product, conj, division, conditional), any field
-  `factorize_rejects`, `factorize_rejects_nonlinear`, `factorize_rejects_divisor`
-  `factorize_sum_drops_counterexample`   `WF` fails on an input the code ACCEPTS (DESIGN F10)
+  `factorize_sound`            FULL: every ACCEPTED graph satisfying the three residual conditions
+                               of `wfCheck`, every handler (sum, product, conj, division,
+                               conditional), any field
+  `accepted_closed`, `accepted_sum_operands`   what acceptance alone implies
+  `factorize_rejects`, `factorize_rejects_nonlinear`, `factorize_rejects_divisor`,
+  `factorize_rejects_sum_argfree`   (the former F10 input `u + f` is now REJECTED)
+  `factorize_target_dropped_counterexample`, `factorize_product_collision_counterexample`
+                               the residual conditions CAN fail on accepted input
 -/
 import FfcxProofs.Lemmas.Tables
 import FfcxProofs.Lemmas.FactorizeTargets
@@ -25,10 +29,10 @@ set_option linter.unusedSimpArgs false
 section
 variable {R : Type} [Field R] (ρ : Env R)
 
-/-- **`factorize_sound`** (full).  For every well-formed graph `S` (`WF S rank`: the algorithm
-accepts it and the decidable conditions `wfCheck` hold — sum operands both argument-dependent or
-both argument-free, product argkeys do not collide, targets of a form of rank ≥ 1 depend on
-arguments) and every field `R` with a lawful interpretation of literals and conjugation and
+/-- **`factorize_sound`** (full).  For every graph `S` that the algorithm ACCEPTS and that
+satisfies the residual decidable conditions `wfCheck` (`WF S rank` is the conjunction: product
+argkeys do not collide; targets of a form of rank ≥ 1 depend on arguments or are the literal zero
+and their re-keyed argkeys are distinct; argument `pos` = rank) and every field `R` with a lawful interpretation of literals and conjugation and
 real-valued argument tables (`conj a = a`):
 
 * the result lists the targets of `S` in order;
@@ -217,8 +221,7 @@ def factorizeError (S : Graph) (rank : Nat) : Option FErr :=
 
 /-- concrete rejected inputs (all confirmed on the real code through `compile_ufl_objects` on
 expressions, which by-pass UFL's arity checker): `sqrt(u)`, `f/u`, `conditional(u < f, f, g)`,
-`conditional(f < g, u, f)`; and the crash `conditional(f < g, u₀, u₁)·v` (valid bilinear form!)
-where `as_ufl(0.0)` is not a node of `F`. -/
+`conditional(f < g, u, f)`, `u + f`. -/
 example : factorizeError ⟨#[⟨.arg 0 0, []⟩, ⟨.op "Sqrt", [0]⟩], [(1, [0])]⟩ 1 =
     some (.nonlinear "Sqrt") := by decide +kernel
 example : factorizeError ⟨#[⟨.term 0, []⟩, ⟨.arg 0 0, []⟩, ⟨.div, [0, 1]⟩], [(2, [0])]⟩ 1 =
@@ -227,16 +230,137 @@ example : factorizeError ⟨#[⟨.arg 0 0, []⟩, ⟨.term 0, []⟩, ⟨.conditi
     ⟨.cond, [2, 1, 3]⟩], [(4, [0])]⟩ 1 = some (.nonlinear "LT") := by decide +kernel
 example : factorizeError ⟨#[⟨.term 0, []⟩, ⟨.term 1, []⟩, ⟨.condition "LT", [0, 1]⟩, ⟨.arg 0 0, []⟩,
     ⟨.cond, [2, 3, 0]⟩], [(4, [0])]⟩ 1 = some .condNonzeroBranch := by decide +kernel
-example : factorizeError ⟨#[⟨.term 0, []⟩, ⟨.term 1, []⟩, ⟨.condition "LT", [0, 1]⟩, ⟨.arg 1 1, []⟩,
-    ⟨.arg 2 1, []⟩, ⟨.cond, [2, 3, 4]⟩, ⟨.arg 0 0, []⟩, ⟨.prod, [5, 6]⟩], [(7, [0])]⟩ 2 =
-    some .zeroNotInF := by decide +kernel
+example : factorizeError ⟨#[⟨.arg 0 0, []⟩, ⟨.term 0, []⟩, ⟨.sum, [0, 1]⟩], [(2, [0])]⟩ 1 =
+    some .sumArgFree := by decide +kernel
 
-/-! ### `WF` can fail on an input the real code accepts (DESIGN F10) -/
+/-- `conditional(f < g, u₀, u₁)·v`: a valid bilinear form whose branches have different argkeys, so
+that `as_ufl(0.0)` is needed and is not a node of `S` (the real code raised `KeyError: Zero` before
+commit e5efe38; now the zero is inserted and the graph is accepted and well formed) -/
+def exCondZero : Graph :=
+  ⟨#[⟨.term 0, []⟩, ⟨.term 1, []⟩, ⟨.condition "LT", [0, 1]⟩, ⟨.arg 1 1, []⟩,
+    ⟨.arg 2 1, []⟩, ⟨.cond, [2, 3, 4]⟩, ⟨.arg 0 0, []⟩, ⟨.prod, [5, 6]⟩], [(7, [0])]⟩
 
-/-- `u + f`: an argument plus a coefficient (as an Expression; a Form is rejected earlier by
-UFL's arity checker) -/
-def exDrop : Graph :=
-  { nodes := #[⟨.arg 0 0, []⟩, ⟨.term 0, []⟩, ⟨.sum, [0, 1]⟩], targets := [(2, [0])] }
+example : WF exCondZero 2 := by decide +kernel
+
+/-- A sum of an argument-dependent and an argument-free operand is rejected with
+`RuntimeError("Expecting all summands to depend on the arguments.")` (DESIGN F10, fixed by commit
+d075f67: before, the argument-free summand was silently dropped). -/
+theorem stepNode_rejects_sum_argfree (avIndex : Nat → Nat) (st : FState) (si : Nat) (a b : Nat)
+    (ha : a < si) (hb : b < si)
+    (hdep : (st.facs[a]?.getD []).isEmpty ≠ (st.facs[b]?.getD []).isEmpty) :
+    stepNode avIndex st si ⟨.sum, [a, b]⟩ = .error .sumArgFree := by
+  have hnall : (([a, b].map fun d => st.facs[d]?.getD []).all (·.isEmpty)) = false := by
+    cases h1 : (st.facs[a]?.getD []).isEmpty <;> cases h2 : (st.facs[b]?.getD []).isEmpty <;> simp_all
+  have hor : ((st.facs[a]?.getD []).isEmpty || (st.facs[b]?.getD []).isEmpty) = true := by
+    cases h1 : (st.facs[a]?.getD []).isEmpty <;> cases h2 : (st.facs[b]?.getD []).isEmpty <;> simp_all
+  unfold stepNode
+  simp only [List.all_cons, List.all_nil, ha, hb, decide_true, Bool.and_self, Bool.not_true,
+    Bool.false_eq_true, if_false, Kind.arityOk, List.length_cons, List.length_nil, isArgKind, hnall]
+  simp [handleSum, hor, Except.map]
+
+theorem factorize_rejects_sum_argfree (S : Graph) (rank : Nat) (i : Nat) (hi : i < S.nodes.size)
+    (st1 : FState) (a b : Nat)
+    (hpre : runNodes (fun si => (argIndices S.nodes).idxOf si) (initState S.nodes) 0
+      (S.nodes.toList.take i) = .ok st1)
+    (hn : S.nodes[i] = ⟨.sum, [a, b]⟩) (ha : a < i) (hb : b < i)
+    (hdep : (st1.facs[a]?.getD []).isEmpty ≠ (st1.facs[b]?.getD []).isEmpty) :
+    factorize S rank = .error .sumArgFree :=
+  factorize_rejects S rank i hi st1 _ hpre (hn ▸ stepNode_rejects_sum_argfree _ st1 i a b ha hb hdep)
+
+/-! ### What acceptance alone implies -/
+
+theorem runNodes_append (avIndex : Nat → Nat) :
+    ∀ (pre rest : List Node) (st : FState) (si : Nat),
+      runNodes avIndex st si (pre ++ rest) =
+        match runNodes avIndex st si pre with
+        | .error e => .error e
+        | .ok st1 => runNodes avIndex st1 (si + pre.length) rest := by
+  intro pre
+  induction pre with
+  | nil => intro rest st si; simp [runNodes]
+  | cons m pre ih =>
+    intro rest st si
+    simp only [List.cons_append]
+    unfold runNodes
+    cases hs : stepNode avIndex st si m with
+    | error e => rfl
+    | ok st2 =>
+      simp only
+      rw [ih rest st2 (si + 1)]
+      have : si + 1 + pre.length = si + (m :: pre).length := by simp; omega
+      rw [this]
+
+theorem runNodes_prefix_error (avIndex : Nat → Nat) (e : FErr) (pre rest : List Node) (st : FState)
+    (si : Nat) (h : runNodes avIndex st si pre = .error e) :
+    runNodes avIndex st si (pre ++ rest) = .error e := by
+  rw [runNodes_append, h]
+
+theorem runNodes_suffix (avIndex : Nat → Nat) (pre rest : List Node) (st : FState) (si : Nat)
+    (st1 : FState) (h : runNodes avIndex st si pre = .ok st1) :
+    runNodes avIndex st si (pre ++ rest) = runNodes avIndex st1 (si + pre.length) rest := by
+  rw [runNodes_append, h]
+
+theorem runNodes_facs_size (avIndex : Nat → Nat) (fin : FState) :
+    ∀ (rest : List Node) (st : FState) (si : Nat), runNodes avIndex st si rest = .ok fin →
+      fin.facs.size = st.facs.size + rest.length := by
+  intro rest
+  induction rest with
+  | nil => intro st si h; simp [runNodes] at h; subst h; simp
+  | cons n rest ih =>
+    intro st si h
+    unfold runNodes at h
+    split at h
+    · cases h
+    rename_i st1 hstep
+    obtain ⟨d, hd⟩ := stepNode_facs avIndex st si n st1 hstep
+    rw [ih st1 (si + 1) h, hd]; simp; omega
+
+/-- In an accepted graph the operands of every sum are both argument-dependent or both
+argument-free (the former `WF` condition). -/
+theorem accepted_sum_operands (S : Graph) (rank : Nat) (res : FResult)
+    (h : factorize S rank = .ok res) (i : Nat) (hi : i < S.nodes.size) (a b : Nat)
+    (hn : S.nodes[i] = ⟨.sum, [a, b]⟩) :
+    (res.nodeFacs[a]?.getD []).isEmpty = (res.nodeFacs[b]?.getD []).isEmpty := by
+  apply Decidable.byContradiction
+  intro hne
+  obtain ⟨st, hrun, _, hfacs, _, _⟩ := factorize_ok S rank res h
+  -- split the run at node i
+  have hsplit : S.nodes.toList = S.nodes.toList.take i ++ S.nodes[i] :: S.nodes.toList.drop (i + 1) := by
+    have hi' : i < S.nodes.toList.length := by simpa using hi
+    have hd : S.nodes.toList.drop i = S.nodes.toList[i] :: S.nodes.toList.drop (i + 1) :=
+      List.drop_eq_getElem_cons hi'
+    rw [Array.getElem_toList] at hd
+    rw [← hd, List.take_append_drop]
+  have hlen : (S.nodes.toList.take i).length = i := by simp; omega
+  obtain ⟨hcS, _⟩ := accepted_closed S.nodes _ _ st hrun
+  have hab : a < i ∧ b < i := by
+    have := hcS i hi
+    rw [hn] at this
+    exact ⟨this a (by simp), this b (by simp)⟩
+  -- the prefix run
+  cases hpre : runNodes (fun si => (argIndices S.nodes).idxOf si) (initState S.nodes) 0
+      (S.nodes.toList.take i) with
+  | error e =>
+    have := runNodes_prefix_error _ e (S.nodes.toList.take i) (S.nodes[i] :: S.nodes.toList.drop (i + 1))
+      (initState S.nodes) 0 hpre
+    rw [← hsplit, hrun] at this; cases this
+  | ok st1 =>
+    -- facs of a, b at st1 are the final ones
+    have hsuf := runNodes_suffix _ (S.nodes.toList.take i) (S.nodes[i] :: S.nodes.toList.drop (i + 1))
+      (initState S.nodes) 0 st1 hpre
+    rw [← hsplit, hrun, hlen, Nat.zero_add] at hsuf
+    have hsize : st1.facs.size = i := by
+      have := runNodes_facs_size _ st1 (S.nodes.toList.take i) (initState S.nodes) 0 hpre
+      rw [this, hlen]; simp [initState]
+    have hst := runNodes_facs_stable _ st _ st1 i hsuf.symm
+    have hrej := stepNode_rejects_sum_argfree (fun si => (argIndices S.nodes).idxOf si) st1 i a b
+      hab.1 hab.2 (by
+        rw [← hst a (by omega), ← hst b (by omega), ← hfacs]; exact hne)
+    unfold runNodes at hsuf
+    rw [hn, hrej] at hsuf
+    cases hsuf
+
+/-! ### The residual conditions of `wfCheck` can fail on accepted input -/
 
 /-- does `Σ F_k Π args = S` hold for every target, in the rational interpretation? -/
 def identityHolds (ρ : Env Rat) (S : Graph) (rank : Nat) : Bool :=
@@ -245,13 +369,29 @@ def identityHolds (ρ : Env Rat) (S : Graph) (rank : Nat) : Bool :=
       decide (val ρ S.nodes e.1 = lsum (fun kf => val ρ res.F kf.2 * keyProd (val ρ res.F) kf.1) e.2.2)
   | .error _ => false
 
-/-- **Counterexample.**  `handle_sum` accepts `u + f`, silently drops `f`: the factorisation is
-`{(u,): 1}`; with `u = 2`, `f = 3` the target is `5`, the factorised value `2`.  The model
-reproduces the real code (ir_checks.check_factorization_probes: same `F`, same factors), so this is
-a defect of `compute_argument_factorization`, not of the model; `WF` excludes it. -/
-theorem factorize_sum_drops_counterexample :
-    factorizeError exDrop 1 = none ∧ ¬ WF exDrop 1 ∧
-    identityHolds (ratEnv (fun _ => 2) (fun _ => 3)) exDrop 1 = false ∧
+/-- `as_vector((u, f))` as an Expression of rank 1: the component `f` does not depend on the
+argument -/
+def exTargetDrop : Graph :=
+  { nodes := #[⟨.arg 0 0, []⟩, ⟨.term 0, []⟩], targets := [(0, [0]), (1, [1])] }
+
+/-- **Counterexample (target condition).**  The argument-free component of a rank-1 expression is
+accepted and silently dropped ("Zero form of arity 1 or higher: make factors empty"): with
+`f = 3` the target is `3`, the factorised value `0`. -/
+theorem factorize_target_dropped_counterexample :
+    factorizeError exTargetDrop 1 = none ∧ ¬ WF exTargetDrop 1 ∧
+    identityHolds (ratEnv (fun _ => 2) (fun _ => 3)) exTargetDrop 1 = false := by decide +kernel
+
+/-- `(u₀ + u₁)·(u₀ + u₁)` -/
+def exCollision : Graph :=
+  { nodes := #[⟨.arg 0 0, []⟩, ⟨.arg 1 0, []⟩, ⟨.sum, [0, 1]⟩, ⟨.prod, [2, 2]⟩], targets := [(3, [0])] }
+
+/-- **Counterexample (product condition).**  `factors[argkey] = …` overwrites the term of the
+argkey `(u₀, u₁)` that occurs twice: with `u₀ = 2`, `u₁ = 3` the target is `25`, the factorised
+value `4 + 6 + 9 = 19`.  (The real pipeline stops such input later: `assert rank == len(ma_indices)`
+in `integral.py`; forms are rejected by UFL's arity check.) -/
+theorem factorize_product_collision_counterexample :
+    factorizeError exCollision 1 = none ∧ ¬ WF exCollision 1 ∧
+    identityHolds (ratEnv (fun p => if p = 0 then 2 else 3) (fun _ => 0)) exCollision 1 = false ∧
     identityHolds (ratEnv (fun _ => 2) (fun _ => 3)) exBilinear 2 = true := by decide +kernel
 
 end Ffcx.IR
